@@ -308,6 +308,7 @@ WORKLOADS = [
     Workload("invariance", w_invariance, 300, 20000),
     Workload("errors", w_errors, 6, 60),
     Workload("statistical", w_statistical, 28, 224, budget=300),
+    Workload("repo_tests", lambda ctx, rng, i: core.run_repo_tests(ctx), 1, 1, budget=1800, tiers=("thorough",)),
 ]
 
 
